@@ -556,7 +556,15 @@ func (fx *Fx) applyContract(st *State, ct *Contract, fn *ssa.Function, args []Va
 	}
 	for _, g := range ct.GhostHavoc {
 		if old, ok := st.Ghost[g]; ok {
-			st.Ghost[g] = Sym(freshName("G!"+g), old.S)
+			nv := Sym(freshName("G!"+g), old.S)
+			if fx.P.GhostMono[g] && old.S.K == SBV {
+				// monotone counters never decrease (obliged at the callee's exits, part of a trusted contract otherwise)
+				fx.assume(st, BVOp("bvuge", nv, old))
+				if old.S.W == 64 {
+					fx.assume(st, BVOp("bvult", nv, BVConst(1<<62, 64)))
+				}
+			}
+			st.Ghost[g] = nv
 		}
 	}
 	for _, g := range ct.GhostSets {
